@@ -54,7 +54,11 @@ def _verdict(vals, want_t, want_d):
     return True, []
 
 
-@analysis("degrees", ["C12.a", "C02.a", "C02.b", "C12.c", "C19.d", "C08.e", "C12.e", "C20.j", "C12.f", "C12.h", "C12.i"])
+rule("C16.l", "scaled asset: what it adds to the cost vector - the fix costs of the scale variable - is cost rate x active duration in main time "
+              "units (time degree 0), like every other entry of c; not rate x number of steps", floor=1)
+
+
+@analysis("degrees", ["C12.a", "C02.a", "C02.b", "C12.c", "C19.d", "C08.e", "C12.e", "C20.j", "C12.f", "C12.h", "C12.i", "C16.l"])
 def run(ctx):
     p = ctx.p
     summaries = {}
@@ -111,6 +115,10 @@ def run(ctx):
             ctx.ob("C12.a", where_fn, cons, ok, detail, node=node, ok_detail=show(vals))
             if cname == "OrderBook":
                 ctx.ob("C20.j", where_fn, cons, ok, detail, node=node, ok_detail=show(vals))
+            if cname == "ScaledAsset" and kind == "c":
+                ctx.ob("C16.l", where_fn, cons, ok, detail + " (the fix costs of a scaled asset are s x cost rate x active duration: with the number of "
+                       "steps in place of the duration they are four times too large on a 15-minute grid, 24 times too small on a daily one)",
+                       node=node, ok_detail=show(vals))
             if cname in C02_CLASSES or fn.qualname == "assets.define_restr":
                 ctx.ob("C02.a", where_fn, cons, ok, detail, node=node, ok_detail=show(vals))
             if fn.qualname == "assets.define_restr" and kind == "b":
@@ -138,7 +146,8 @@ def run(ctx):
                        "unit of the rate (days) before it is used as an exponent" % show1(y), node=where)
                 continue
             same_t = isinstance(x, tuple) and isinstance(y, tuple) and len(x) == 2 and len(y) == 2 and x[0] == y[0]
-            rids = (["C02.b"] if same_t else ["C12.a"]) + (["C20.j"] if cname == "OrderBook" else [])
+            rids = (["C02.b"] if same_t else ["C12.a"]) + (["C20.j"] if cname == "OrderBook" else []) + \
+                (["C16.l"] if cname == "ScaledAsset" and not same_t else [])
             for rid in rids:
                 # a conflict in the discount exponent only is a matter of discounting (C02.b), not of time units (C12.a)
                 ctx.ob(rid, where_fn, "mixed degrees: %s" % au.short(where, 70), False,
